@@ -44,6 +44,8 @@ structure Kernel where
   tcpIsn : Nat := isnStart
   /-- ghost: fds handed out by `poll_accept`, oldest first (C13 accept-once). -/
   acceptLog : List Nat := []
+  /-- ghost: fds `push_to_listener` queued on a listener, oldest first (C13 accept-once). -/
+  pushLog : List Nat := []
   deriving Repr, Inhabited
 
 namespace Kernel
@@ -349,7 +351,9 @@ def pushToListener (k : Kernel) (child : Nat) (l : SockAddr) : Kernel :=
     | some ls =>
       match ls.listen with
       | none => k
-      | some li => k.setSock lfd { ls with listen := some { li with ready := li.ready ++ [child] } }
+      | some li =>
+        { (k.setSock lfd { ls with listen := some { li with ready := li.ready ++ [child] } }) with
+          pushLog := k.pushLog ++ [child] }
 
 def rstAckSeg (t : Tcb) (l : SockAddr) : Seg :=
   { srcPort := l.port, dstPort := t.peer.port, seq := t.sndNxt, ack := t.rcvNxt,
